@@ -11,7 +11,7 @@ OVERLAY = {"gensign/regular/zz_verif_gensign_test.go": HARNESS_SRC}
 CFG = {
     "C01": dict(quick="MCGensign_c01", thorough="MCGensign_c01t", nrand=(1200, 12000)),
     "C02": dict(quick="MCGensign_c02", thorough="MCGensign_c02t", nrand=(1500, 15000)),
-    "C03": dict(quick="MCGensign_c03", thorough="MCGensign_c03t", nrand=(1200, 12000)),
+    "C03": dict(quick="MCGensign_c03", thorough="MCGensign_c03t", nrand=(900, 12000)),
     "C04": dict(quick="MCGensign_c04", thorough="MCGensign_c04t", nrand=(1200, 12000)),
 }
 
